@@ -1,0 +1,8 @@
+//go:build !verif
+
+// Package verifhook provides schedule points for verification harnesses.
+// Without the build tag `verif` every point is an empty function.
+package verifhook
+
+// Yield marks a schedule point; it does nothing in normal builds.
+func Yield(point string) {}
